@@ -455,7 +455,7 @@ def run(ck):
             do(c, tid)
             tid += 1
         ck.sample(dict(direction="spec->code", eapi=cases[0]["eapi"], script=render_script(cases[0], "$EBD").splitlines()[11:]))
-        for _ in range(ck.pick(30, 800)):
+        for _ in range(ck.pick(30, 500)):
             c = rand_case(r_)
             do(c, tid, r_)
             tid += 1
